@@ -109,15 +109,24 @@ def run_case(case, swapped, pname, variant, occ=0):
     return problems
 
 
+def _job(j):
+    ci, case, swapped, pname, variant = j
+    return run_case(case, swapped, pname, variant, occ=ci)
+
+
 def check_cases(chk, cases, profiles, full):
     index = {(json.dumps(c['a']), json.dumps(c['b'])): c for c in cases}
     variants = [{}, {'buffersize': 1}, {'buffersize': 2, 'cache': False}, {'presorted': True}]
+    jobs = []
     for ci, case in enumerate(cases):
         swapped = index[(json.dumps(case['b']), json.dumps(case['a']))]
         combos = [(p, v) for p in profiles for v in variants] if full else \
             [(profiles[ci % len(profiles)], {}), (profiles[(ci + 1) % len(profiles)], variants[1 + ci % 3])]
         for pname, variant in combos:
-            probs = run_case(case, swapped, pname, variant, occ=ci)
+            jobs.append((ci, case, swapped, pname, variant))
+    results = common.pmap(_job, jobs)
+    for (ci, case, swapped, pname, variant), probs in zip(jobs, results):
+        if True:
             chk.count(('setop', ci, pname, json.dumps(variant, sort_keys=True)))
             chk.replayed += 1
             for p in probs:
